@@ -365,7 +365,7 @@ def pyval(s):
 
 def analyse(case):
     """re-derive everything the matchers need from the replayable part of a case"""
-    t1, t2 = pyval(case["t1"]), pyval(case["t2"])
+    t1, t2 = rebuild(case)
     opt = case["opt"]
     P = all_positions(t1, t2)
     spec = Spec(P, opt.get("ex", ()), opt.get("rx", ()), opt.get("inc", ()))
@@ -534,6 +534,67 @@ def gen_pair(rng):
     return {"a": 1}, {"a": 2}
 
 
+def gen_pair_records(rng):
+    """string-keyed records: dict -> dict / list of dicts -> dict ..., differences deep inside"""
+    strings = V.STR_POOL[:8]
+    for _ in range(30):
+        t1 = V.gen_value(rng, depth=4, width=3, strings=strings, kinds=rng.choice(["DDL", "DLD", "DLDT"]),
+                         keygen=lambda r: r.choice(strings))
+        if not isinstance(t1, dict) or len(all_positions(t1, t1)) < 6:
+            continue
+        vals, _k = V.edit_script(rng, t1, rng.randint(3, 7), strings=strings,
+                                 kinds=["replace_atom", "replace_atom", "dict_add", "dict_del", "list_insert"])
+        t2 = vals[-1]
+        if D.set_alias(t1, t2) or D.tag_unsafe(t1, t2):
+            continue
+        return t1, t2
+    return gen_pair(rng)
+
+
+def share_pair(rng, t1, t2):
+    """ONE container object at two positions of t1 and likewise ONE object at the same two positions
+    of t2 (Python identity).  Returns (t1, t2, [p, q]) or None.  The model sees values, so sharing is
+    invisible to it - and must be invisible in the implementation's result as well."""
+    t1, t2 = copy.deepcopy(t1), copy.deepcopy(t2)
+    P = [p for p in all_positions(t1, t2) if p]
+    cand = [p for p in P if isinstance(_at(t1, p), (list, dict)) and type(_at(t1, p)) is type(_at(t2, p))
+            and V.canon(_at(t1, p)) != V.canon(_at(t2, p))]
+    rng.shuffle(cand)
+    for p in cand:
+        targets = [q for q in P if not is_prefix(p, q) and not is_prefix(q, p)
+                   and has_pos(t1, q) and has_pos(t2, q)
+                   and isinstance(_at(t1, q[:-1]), (list, dict)) and isinstance(_at(t2, q[:-1]), (list, dict))]
+        if not targets:
+            continue
+        q = rng.choice(targets)
+        plant_shared(t1, p, q)
+        plant_shared(t2, p, q)
+        return t1, t2, [p, q]
+    return None
+
+
+def plant_shared(t, p, q):
+    """t[q] = t[p] (the same object)"""
+    obj = _at(t, p)
+    parent = _at(t, q[:-1])
+    tag, x = q[-1]
+    if tag == "x":
+        parent[x] = obj
+    else:
+        key = [k for k in parent if V.canon_atom(k) == x][0]
+        parent[key] = obj
+
+
+def rebuild(case):
+    """the inputs of a case, with the recorded object sharing re-established"""
+    t1, t2 = pyval(case["t1"]), pyval(case["t2"])
+    sh = case.get("opt", {}).get("share")
+    if sh:
+        plant_shared(t1, sh[0], sh[1])
+        plant_shared(t2, sh[0], sh[1])
+    return t1, t2
+
+
 def rx_escape(s):
     return re.escape(s)
 
@@ -572,6 +633,7 @@ def gen_options(rng, t1, t2, P, n, hot=()):
             hp = [p for p in hot if zip_ or p[-1][0] == "k"]
             pool = hp or pool
         opt = {"kind": kind, "zip": zip_, "thr": rng.choice(THRS)}
+        incpool = [p for p in pool if p and all(simple_str_key(e) for e in p)] or strpaths
         if kind == "lit1":
             q = rng.choice(pool) if rng.random() < 0.97 else []
             opt["ex"] = [render(q)]
@@ -623,9 +685,9 @@ def gen_options(rng, t1, t2, P, n, hot=()):
             opt["inc"] = [render(rng.choice(strpaths))]
             opt["ex"] = [render(rng.choice(pool))]
         elif kind == "inc1":
-            opt["inc"] = [render(rng.choice(strpaths))]
+            opt["inc"] = [render(rng.choice(incpool))]
         elif kind == "inc2":
-            opt["inc"] = sorted(set(render(rng.choice(strpaths)) for _ in range(rng.randint(2, 3))))
+            opt["inc"] = sorted(set(render(rng.choice(incpool)) for _ in range(rng.randint(2, 3))))
         elif kind == "inc_any":
             opt["inc"] = [render(rng.choice(nonroot))]
         elif kind == "unrooted":
@@ -781,7 +843,13 @@ def _work(args):
     def cnt(k, n=1):
         counts[k] = counts.get(k, 0) + n
     for _ in range(npairs):
-        t1, t2 = gen_pair(rng)
+        t1, t2 = gen_pair_records(rng) if rng.random() < 0.25 else gen_pair(rng)
+        shared = None
+        if rng.random() < 0.3:
+            sp = share_pair(rng, t1, t2)
+            if sp:
+                t1, t2, shared = sp
+                cnt("pairs_with_shared_object")
         P = all_positions(t1, t2)
         base = {}
         b0 = run_tree(t1, t2, {"zip": True, "thr": 0})[0]
@@ -796,6 +864,8 @@ def _work(args):
             hot = [p for p in P if json.dumps(p) in keys]
             base[(True, 0)] = (b0, run_text(t1, t2, {"zip": True, "thr": 0}))
         for opt in gen_options(rng, t1, t2, P, nopts, hot):
+            if shared:
+                opt["share"] = shared
             bk = (opt["zip"], opt["thr"])
             if bk not in base:
                 bopt = {"zip": opt["zip"], "thr": opt["thr"]}
@@ -912,7 +982,7 @@ def replay(ctx, data):
     case = data.get("case", {})
     if "t1" not in case:
         return run(ctx)
-    t1, t2 = pyval(case["t1"]), pyval(case["t2"])
+    t1, t2 = rebuild(case)
     opt = case["opt"]
     bopt = {"zip": opt["zip"], "thr": opt["thr"]}
     bt, bx = run_tree(t1, t2, bopt)[0], run_text(t1, t2, bopt)
